@@ -14,7 +14,9 @@
      draws   : VTup [seed; VList floats]: the first random() values of random.Random(seed)
      jobs    : VTup [depth; action; arg; sched]: run [action] on the dataset made of the first [depth] stages
                action 0 = per-partition lists (runJob(unit_map)), 1 = collect, 2 = count, 3 = sum, 4 = coalesce(arg),
-               5 = unpersist() of that dataset (no job runs; value None)
+               5 = unpersist() of that dataset (no job runs; value None),
+               6 = take(arg): runs in the driver on every backend (allowLocal), lazily: the partitions are computed
+                   -- and cached -- one after the other until arg elements are there (a PARTLY materialised dataset)
    result = VTup [VList (VTup [events; value]) ; cache_obj as VList (VTup [VTup [id; index]; data]); stamped idents] *)
 From Coq Require Import ZArith NArith String List Bool PrimFloat.
 Require Import PV.Base.Val PV.Model.Sched.
@@ -103,7 +105,7 @@ Definition dec_job (np : nat) (v : val) : option job :=
   match v with
   | VTup [VInt d; VInt a; VInt arg; VList s] =>
       match all_Z s with
-      | Some zs => if (0 <=? d) && (0 <=? a) && (a <=? 5)
+      | Some zs => if (0 <=? d) && (0 <=? a) && (a <=? 6)
                    then Some {| j_depth := Z.to_nat d; j_action := a; j_arg := arg;
                                 j_sched := map (fun z => if 0 <=? z then Z.to_nat z else np) zs |}
                    else None
@@ -133,6 +135,14 @@ Definition enc_value (a arg : Z) (rs : list (list Z)) : val :=
   | _ => vparts (map (map VInt) (regroup arg rs))
   end.
 
+(* how many leading partitions take(n) computes: none for n = 0, else the shortest prefix holding n elements *)
+Fixpoint prefix_needed (n : nat) (lens : list nat) : nat :=
+  match n, lens with
+  | O, _ => O
+  | _, [] => O
+  | _, l :: rest => S (prefix_needed (n - l) rest)
+  end.
+
 Section Jobs.
 Variable tbl : list (Z * list float).
 Variable backend_code : Z.
@@ -157,6 +167,18 @@ Fixpoint run_jobs (js : list job) (driver : cache) (stamped : list key) (acc : l
                   | Persist id _ => c_keys (c_unpersist (List.length parts) id (map (fun k => (k, [])) stamped))
                   | _ => stamped end)
                  (VTup [enc_events []; VNone] :: acc)
+      else if j_action j =? 6 then
+        let n := Z.to_nat (j_arg j) in
+        let lens := map (fun ip => List.length (eval (draw_of tbl) r (Z.of_nat (fst ip)) (snd ip)))
+                        (combine (seq 0 (List.length parts)) parts) in
+        let '(rs, d', _) := run_local_from (draw_of tbl) (task_prog today r FCollect) 0
+                              (firstn (prefix_needed n lens) parts) driver shared0 in
+        match all_some rs with
+        | Some rs' =>
+            run_jobs js' d' (stamped ++ c_keys (c_not_in d' (c_keys driver)))
+                     (VTup [enc_events []; vints (firstn n (concat rs'))] :: acc)
+        | None => None
+        end
       else if backend_code =? 2 then
         let '(rs, d', _) := run_local (draw_of tbl) today r tf parts driver shared0 in
         match all_some rs with
